@@ -18,6 +18,7 @@ exercised by the correspondence only.
 -/
 import Cacache.Lemmas.ReadBack
 import Cacache.Props.C05
+import Cacache.Lemmas.CodecLaws
 
 namespace Cacache.C02
 open Prog
@@ -66,8 +67,9 @@ theorem read_back_by_address (fs' : FS) (a : Algo) (data b : Bytes)
 
 /-- **Read back by key**: in a state where the key's bucket is a settled old part followed by
 the record of a write of `data`, and the address holds a regular file, `read` yields `data`. -/
-theorem read_back_by_key (L : (codec cfg).Laws) (fs' : FS) (key : Bytes) (o : WriteOpts) (a : Algo)
-    (data b b0 : Bytes) (tm : Nat)
+theorem read_back_by_key {W : Rec → Prop} (L : (codec cfg).Laws W) (fs' : FS) (key : Bytes)
+    (o : WriteOpts) (a : Algo) (data b b0 : Bytes) (tm : Nat)
+    (hW : W (mkRec key { o with sri := some (Sri.compute cfg.H a data) } tm))
     (hbucket : fs'.get (bucketPath cfg cache key) = some (.file (b0 ++ (codec cfg).frame
       (mkRec key { o with sri := some (Sri.compute cfg.H a data) } tm))))
     (hl : 4 ≤ (Bytes.hex (cfg.H a data)).length) (hv : ContentValid cfg cache fs')
@@ -83,7 +85,7 @@ theorem read_back_by_key (L : (codec cfg).Laws) (fs' : FS) (key : Bytes) (o : Wr
              metadata := o.metadata.getD .null, raw := o.raw } := by
     have hk : (codec cfg).key (mkRec key { o with sri := some (Sri.compute cfg.H a data) } tm) = key := rfl
     have := C05.lookup_returns_last_write (codec cfg) L b0 [] []
-      (mkRec key { o with sri := some (Sri.compute cfg.H a data) } tm) _
+      (mkRec key { o with sri := some (Sri.compute cfg.H a data) } tm) _ (by simpa using hW)
       (cls_mkRec_compute cfg key o a data tm) (by simp)
     rw [hk] at this
     simpa [Codec.appendAll] using this
@@ -92,6 +94,19 @@ theorem read_back_by_key (L : (codec cfg).Laws) (fs' : FS) (key : Bytes) (o : Wr
   rw [run_bind]
   simp only [hfind, hm, hro]
   exact readHash_present cfg env cache fs' a data b hl hv hf hinj
+
+/-- **Read back by key, for cacache's own record format** — the record-codec hypothesis is gone:
+well-formed options (`OptsWF`) and a `u128` time are all that is asked of the record. -/
+theorem read_back_by_key_cacache (fs' : FS) (key : Bytes) (o : WriteOpts) (ho : OptsWF key o) (a : Algo)
+    (data b b0 : Bytes) (tm : Nat) (htm : tm ≤ timeMax)
+    (hbucket : fs'.get (bucketPath cfg cache key) = some (.file (b0 ++ (codec cfg).frame
+      (mkRec key { o with sri := some (Sri.compute cfg.H a data) } tm))))
+    (hl : 4 ≤ (Bytes.hex (cfg.H a data)).length) (hv : ContentValid cfg cache fs')
+    (hf : fs'.get (addrPath cache a (Bytes.hex (cfg.H a data))) = some (.file b))
+    (hinj : cfg.H a b = cfg.H a data → b = data) :
+    (run env (read cfg cache key) fs').1 = .ok data :=
+  read_back_by_key cfg env cache (codec_laws cfg) fs' key o a data b b0 tm
+    (mkRec_wf key _ tm (ho.with_computed cfg.H a data) htm) hbucket hl hv hf hinj
 
 /-- The declared-size and declared-integrity variants do not change what is read back: a
 successful answer pins the recorded size to the byte count (see `StreamPost`). -/
